@@ -10,12 +10,13 @@
      ZERO OR ONE step of Sax.v (linear rules only) between the abstractions, emitting the same labels.
      Zero: a send (the message was already there as an object), an active forward posting its request.
    * `refines_sax_run` / `prints_admitted_partial`: along every run on which `Inv` holds, the labels
-     printed by the model are printed, in the same order, by an execution of Sax.v from `α` of the
-     start configuration.  `Inv` is a PREDICATE with a boolean checker (`inv_b`, `inv_b_sound`); its
-     preservation by steps is a consequence of the configuration typing + topology invariants of C01
-     (Typed, Topo) and is NOT proved here: `prints_admitted_partial` takes it as a Section
-     hypothesis, `prints_admitted_checked` replaces it by running the checker along the run (no
-     hypothesis; used for the non-vacuity examples in props/C04.v). *)
+     printed by the model are printed, in the same order, by an execution of Sax.v from the program's
+     SAX initial configuration (`alpha_init`).  `Inv` is a PREDICATE with a boolean checker (`inv_b`,
+     `inv_b_sound`).  `prints_admitted_partial` takes its preservation by steps as a Section
+     hypothesis; proofs/SaxInv.v proves the structural part of it inductive and reduces the premise to
+     the residue of C01's configuration typing (`prints_admitted_residue`);
+     `prints_admitted_checked` replaces the premise by running the checker along the run (no
+     hypothesis; used for the non-vacuity examples in props/C04.v and by the check on every program). *)
 From stdpp Require Import gmap strings.
 Require Import Grits.Base Grits.ModeDefs Grits.Modes Grits.STypes Grits.Forms Grits.Subst Grits.TcDeps Grits.Expand Grits.Runtime.
 Require Import Grits.TcTop Grits.spec.Sax Grits.proofs.Causality.
@@ -779,12 +780,14 @@ Definition linear_program (p : program) : bool :=
    program's own SAX initial configuration prints.
    Proved: `refines_sax` (one step, under Inv), `refines_sax_run`, `prints_admitted_partial`
    (with Inv's preservation as hypothesis), `prints_admitted_checked` (Inv checked along the run).
-   Missing for the full statement: (1) Inv holds of init_config of an accepted linear program and is
-   preserved by steps — its four parts are consequences of C01's invariants: one initialised
-   provider and well-formed messages (Typed), message kind / FWD only to a provider waiting on
-   itself / no receive on a closed channel (Typed + Topo), fresh identifiers at a cut (per-process
-   counters: the cid analogue of Causality.pid_inv), head form in the fragment (lin_form is closed
-   under substitution and unfolding).  (α (init_config p) ≡ₚ sax_init p is proved: alpha_init.) *)
+   and, in proofs/SaxInv.v, the structural part of Inv as an inductive invariant (`ginv`: one initialised
+   provider, bodies and definitions in the fragment, well-formed buffered messages, identifiers below
+   the per-process counters; `ginv_init`, `ginv_step`, `ginv_Inv`) and `prints_admitted_residue`.
+   Missing for the full statement: the residue `SaxInv.tres` of the configuration typing at reachable
+   configurations of an accepted program (a FWD request only reaches a non-forward process waiting
+   on its own channel; nobody receives from a closed empty channel) — consequences of C01's Typed +
+   Topo; and that parsed programs contain no channel constants (`SaxInv.no_cids`, decidable per
+   program).  (α (init_config p) ≡ₚ sax_init p is proved: alpha_init.) *)
 Definition prints_admitted_stmt : Prop :=
   forall p p', TcTop.typecheck p = TcTop.Accept p' -> linear_program p' = true ->
   forall fuel pick, exists C',
